@@ -69,6 +69,11 @@ func process1MapMerge(obj map[string]any, mergeFrom *Document, mergeFromDocs []*
 		return nil, err
 	}
 
+	if containsMap(in, obj) {
+		// Merging a subtree into itself or into one of its descendants
+		return nil, fmt.Errorf("%#v: %w", v, ErrCircularRef)
+	}
+
 	// Merge a copy so that the referenced subtree is never aliased into (or
 	// modified through) its host.
 	next, err := mergeMap(obj, cloneValue(in))
